@@ -12,8 +12,10 @@
 (*   ev   one record per graphics command, in output order: the lexer's    *)
 (*        gfx record (keys and values as written by the library, b64len)   *)
 (*        plus the DUMB projections of harness/c03_project.py on the       *)
-(*        record that ends a transmission: tb64, pad, dlen (base64         *)
-(*        decode), ilen (zlib inflate), kind / imgw / imgh / imgmode       *)
+(*        record that ends a transmission: tb64, pad, pad1 (characters,    *)
+(*        trailing '=', offset of the FIRST '=' of the WHOLE payload),     *)
+(*        dlen (strict base64 decode), ilen (zlib inflate), kind / imgw /  *)
+(*        imgh / imgmode                                                   *)
 (*        (image decode), isfile (bytes = source file), rows_lo, rows_hi,  *)
 (*        pix (decoded pixels = rows [lo,hi) of the reference picture the  *)
 (*        driver resized with Pillow BOX to the transmitted resolution).   *)
@@ -26,8 +28,8 @@ EXTENDS Gfx, Json, IOUtils
 
 Traces == JsonDeserialize(IOEnv.TRACE_FILE)
 
-VARIABLES tid, l, R, pend, first, verdict, at
-vars == <<tid, l, R, pend, first, verdict, at>>
+VARIABLES tid, l, R, pend, first, verdict, at, maxd
+vars == <<tid, l, R, pend, first, verdict, at, maxd>>
 
 Tr == Traces[tid]
 H == Tr.hdr
@@ -51,7 +53,7 @@ KittyClause(RR, pd, fst, i) ==
       c == CmdOf(e, i < N /\ IsCont(Ev[i + 1]))
   IN
   IF e.proto # "kitty" THEN "protocol: not a kitty graphics command"
-  ELSE IF ~e.b64ok THEN "base64: payload contains characters outside the base64 alphabet"
+  ELSE IF ~e.b64ok THEN "base64: a chunk carries characters outside the base64 alphabet or '=' before its end"
   ELSE IF IsDelete(e) THEN
     (IF RR.rx # "idle" THEN "continuation-has-only-m: delete command inside a chunked transmission"
      ELSE IF H.blend THEN "blend: images are deleted although blend is on"
@@ -72,6 +74,11 @@ Init ==
   /\ first = NoFirst
   /\ verdict = "ok"
   /\ at = 0
+  /\ maxd = -1
+
+\* largest payload of the render so far (bytes its base64 characters stand for): the
+\* render's payload SIZE CLASS is reported with the verdict (coverage of the quantifier)
+Seen(e) == maxd' = Max(maxd, IF e.tb64 > 0 THEN DecodedLen(e.tb64, e.pad) ELSE -1)
 
 Mark(v) ==
   /\ verdict' = (IF verdict # "ok" THEN verdict ELSE v)
@@ -83,7 +90,7 @@ KittyDelete ==
   /\ Mark(KittyClause(R, pend, first, l + 1))
   /\ pend' = TRUE
   /\ l' = l + 1
-  /\ UNCHANGED <<tid, R, first>>
+  /\ UNCHANGED <<tid, R, first, maxd>>
 
 \* first chunk / continuation chunk of a transmission
 KittyChunk ==
@@ -97,6 +104,7 @@ KittyChunk ==
                IN IF e.proto = "kitty" /\ Completes(c) /\ R.ntrans = 0
                     THEN <<CtlOf(R, c).s, CtlOf(R, c).v>> ELSE first)
   /\ l' = l + 1
+  /\ Seen(Ev[l + 1])
   /\ UNCHANGED tid
 
 \* one inline image (a strip of LINES, or the whole picture)
@@ -106,18 +114,20 @@ ITermImage ==
   /\ R' = [R EXCEPT !.ntrans = @ + 1]
   /\ first' = (IF R.ntrans = 0 THEN <<Ev[l + 1].imgw, Ev[l + 1].imgh>> ELSE first)
   /\ l' = l + 1
+  /\ Seen(Ev[l + 1])
   /\ UNCHANGED <<tid, pend>>
 
 Finish ==
   /\ l = N
   /\ l' = N + 1
   /\ Mark(IF pend THEN "blend: delete not followed by a transmission" ELSE EndClause(H, R))
-  /\ UNCHANGED <<tid, R, pend, first>>
+  /\ UNCHANGED <<tid, R, pend, first, maxd>>
 
 Next == KittyDelete \/ KittyChunk \/ ITermImage \/ Finish
 Spec == Init /\ [][Next]_vars
 
 Done == l = N + 1
 Report == Done => PrintT(<<"VERDICT", ToJson([tid |-> tid, verdict |-> verdict, at |-> at,
-                                               ntrans |-> R.ntrans, maxch |-> R.maxch])>>)
+                                               ntrans |-> R.ntrans, maxch |-> R.maxch,
+                                               pclass |-> PayloadClass(maxd)])>>)
 =============================================================================
